@@ -5,6 +5,7 @@ import Driver.Router
 import Driver.Lock
 import Driver.Paginate
 import Driver.Log
+import Driver.SqlText
 /-! registry of the areas the driver serves -/
 namespace Driver
 def areas : List (String × Handler) := [
@@ -13,6 +14,8 @@ def areas : List (String × Handler) := [
   ("router", RouterD.handle),
   ("lock", LockD.handle),
   ("paginate", PaginateD.handle),
-  ("logrt", LogD.handle)
+  ("logrt", LogD.handle),
+  ("sqltext", SqlTextD.handle),
+  ("sqllex", SqlTextD.handleLex)
 ]
 end Driver
